@@ -147,6 +147,21 @@ def directed(i):
     from odf.opendocument import OpenDocumentText
     from odf import style, text, meta, dc
     doc = OpenDocumentText()
+    if i == -7:
+        # one name, three kinds of automatic style (names are unique per kind, not across kinds): a paragraph style, a list style and a
+        # number style all called N1, each referenced from the body - the number style through a cell style - in both orders of declaration
+        from odf import number, table
+        for k, nm in enumerate(('N1', 'N2')):
+            ps = style.Style(name=nm, family='paragraph'); ps.addElement(style.ParagraphProperties(textalign='end'))
+            ls = text.ListStyle(name=nm); ls.addElement(text.ListLevelStyleBullet(level='1', bulletchar=u'\u2013'))
+            ns = number.NumberStyle(name=nm); ns.addElement(number.Number(minintegerdigits='2'))
+            for e in ((ps, ls, ns) if k == 0 else (ns, ls, ps)): doc.automaticstyles.addElement(e)
+            ce = style.Style(name='ce%d' % k, family='table-cell', datastylename=nm); doc.automaticstyles.addElement(ce)
+            doc.text.addElement(text.P(stylename=nm, text='paragraph ' + nm))
+            li = text.List(stylename=nm); it = text.ListItem(); it.addElement(text.P(text='item')); li.addElement(it); doc.text.addElement(li)
+            t = table.Table(name='t%d' % k); t.addElement(table.TableColumn()); tr = table.TableRow(); t.addElement(tr)
+            tc = table.TableCell(stylename='ce%d' % k, valuetype='float', value='7'); tc.addElement(text.P(text='07')); tr.addElement(tc); doc.text.addElement(t)
+        return doc
     if i == -6:
         # objects two levels deep, each attached when its parent has its folder: a spreadsheet holding a chart, next to a second object
         from odf.opendocument import OpenDocumentSpreadsheet, OpenDocumentChart
@@ -202,7 +217,7 @@ def run(ctx):
     refattrs = set(tuple(x) for x in twin['GenStyleRefs.v']['schema']) | {(STY, 'list-style-name')}
     n = 30 if ctx.quick else 800
     g = schemagen.Gen(ctx.rng, twin['GenGrammar.v'])
-    for i in range(-6, n):
+    for i in range(-7, n):
         doc = directed(i) if i < 0 else g.document()
         before = snapshot(doc)
         case = {'i': i, 'seed': ctx.seed, 'mime': doc.mimetype, 'elements': sum(X.tree_size(before['sections'][a]) for a in SECTS)}
